@@ -1957,6 +1957,70 @@ fn c13_one(case: &C13Case, prep: &C13Prepared, fault: &Fault, kf_merge: bool) ->
     }
 }
 
+/// Nodes (and relationships) that are created and deleted again before the graph is used, so
+/// that the store has id holes below and between the surviving nodes and a populated free list:
+/// the next creations (an import into this store) receive recycled, low ids.
+#[derive(Clone, Debug)]
+struct Ballast {
+    /// (position selector in the creation order, labels, via)
+    victims: Vec<(u16, Vec<String>, u8)>,
+    /// extra relationships over all nodes (victims and survivors): (src sel, dst sel, type, via)
+    edges: Vec<(u16, u16, String, u8)>,
+    /// deletion order keys (the free list is LIFO, so this decides which hole is reused first)
+    order: Vec<u16>,
+    /// also delete one relationship between survivors (relationship id hole)
+    drop_edge: Option<u16>,
+}
+
+fn ballast_strategy() -> BoxedStrategy<Ballast> {
+    let labels = proptest::sample::subsequence(vec!["A", "B", "C"], 1..=2).prop_map(|v| v.into_iter().map(|s| s.to_string()).collect::<Vec<String>>());
+    let ty = proptest::sample::select(vec!["R", "S", "T"]).prop_map(|s| s.to_string());
+    (
+        proptest::collection::vec((any::<u16>(), labels, 0u8..3), 1..=4),
+        proptest::collection::vec((any::<u16>(), any::<u16>(), ty, 0u8..2), 0..=4),
+        proptest::collection::vec(any::<u16>(), 4),
+        proptest::option::weighted(0.3, any::<u16>()),
+    )
+        .prop_map(|(victims, edges, order, drop_edge)| Ballast { victims, edges, order, drop_edge })
+        .boxed()
+}
+
+/// Interleave the victims into the creation order of `g`, connect them, then delete them again
+/// through edits. `uid_base`: identity values of the victims (disjoint from everything else).
+fn add_ballast(g: &mut GraphCase, b: &Ballast, uid_base: i64) {
+    let survivors = std::mem::take(&mut g.nodes);
+    let mut slots: Vec<(Option<usize>, NodeSpec)> = survivors.into_iter().enumerate().map(|(i, n)| (Some(i), n)).collect();
+    for (j, (pos, labels, via)) in b.victims.iter().enumerate() {
+        let at = pick_idx(*pos, slots.len() + 1);
+        let props = vec![("name".to_string(), PV(PropertyValue::String(format!("v{j}")))), ("code".to_string(), PV(PropertyValue::Integer(900 + j as i64)))];
+        slots.insert(at, (None, NodeSpec { uid: uid_base + j as i64, labels: labels.clone(), props, via: *via }));
+    }
+    let mut new_index: BTreeMap<usize, usize> = BTreeMap::new();
+    for (pos, (old, _)) in slots.iter().enumerate() {
+        if let Some(o) = old {
+            new_index.insert(*o, pos);
+        }
+    }
+    for e in g.edges.iter_mut() {
+        e.src = new_index[&e.src];
+        e.dst = new_index[&e.dst];
+    }
+    let survivor_edges = g.edges.len();
+    let total = slots.len();
+    for (a, c, ty, via) in &b.edges {
+        g.edges.push(EdgeSpec { src: pick_idx(*a, total), dst: pick_idx(*c, total), ty: ty.clone(), props: Vec::new(), via: *via });
+    }
+    if let (Some(sel), true) = (b.drop_edge, survivor_edges > 0) {
+        g.edits.push(Edit::DeleteEdge { edge: pick_idx(sel, survivor_edges) });
+    }
+    let mut victims: Vec<(u16, usize)> = slots.iter().enumerate().filter(|(_, (o, _))| o.is_none()).enumerate().map(|(j, (pos, _))| (b.order.get(j).copied().unwrap_or(0), pos)).collect();
+    victims.sort();
+    for (_, pos) in victims {
+        g.edits.push(Edit::DeleteNode { node: pos });
+    }
+    g.nodes = slots.into_iter().map(|(_, n)| n).collect();
+}
+
 /// Target + snapshot generator. Twins: snapshot nodes that share all labels, `name` and `code`
 /// with one target node; every other node has its own name/code. Non-key properties never conflict.
 fn c13_strategy() -> BoxedStrategy<C13Case> {
@@ -1964,7 +2028,7 @@ fn c13_strategy() -> BoxedStrategy<C13Case> {
     let snap = graph_strategy(true, false, 5, 6, 1);
     let twins = proptest::collection::vec(proptest::option::weighted(0.5, any::<u16>()), 5);
     let dedup = prop_oneof![
-        2 => Just(vec![]),
+        4 => Just(vec![]),
         3 => Just(vec!["name".to_string()]),
         2 => Just(vec!["code".to_string()]),
         2 => Just(vec!["name".to_string(), "code".to_string()]),
@@ -1972,8 +2036,12 @@ fn c13_strategy() -> BoxedStrategy<C13Case> {
         1 => Just(vec!["nokey".to_string()]),
     ];
     let extra_label = proptest::collection::vec(proptest::option::weighted(0.3, proptest::sample::select(vec!["C", "D"])), 5);
-    (target, snap, twins, dedup, extra_label)
-        .prop_map(|(mut target, mut snap, twins, dedup, extra)| {
+    // create-and-delete histories: most target stores have id holes (imported nodes then get
+    // recycled ids below / between pre-existing ones); some snapshot sources too (sparse exported ids)
+    let target_ballast = proptest::option::weighted(0.65, ballast_strategy());
+    let snap_ballast = proptest::option::weighted(0.25, ballast_strategy());
+    (target, snap, twins, dedup, extra_label, target_ballast, snap_ballast)
+        .prop_map(|(mut target, mut snap, twins, dedup, extra, target_ballast, snap_ballast)| {
             snap.id_key = "sid".to_string();
             for (i, n) in target.nodes.iter_mut().enumerate() {
                 n.props.retain(|(k, _)| k != "name" && k != "code" && k != "sid");
@@ -2005,6 +2073,12 @@ fn c13_strategy() -> BoxedStrategy<C13Case> {
                     }
                 }
             }
+            if let Some(b) = &target_ballast {
+                add_ballast(&mut target, b, 2000);
+            }
+            if let Some(b) = &snap_ballast {
+                add_ballast(&mut snap, b, 3000);
+            }
             C13Case { target, snap, dedup, fault: None }
         })
         .boxed()
@@ -2014,7 +2088,7 @@ fn c13(args: &Args) {
     let mut ev = Evidence::new(
         args,
         "fault_enumeration",
-        "target store (0-4 nodes with name/code keys) x exported snapshot (1-5 nodes, 0-6 relationships, values that round-trip exactly; some nodes are twins of target nodes on label+name+code) x dedup keys {none, name, code, both orders, a key nobody has} x fault: none, every truncation offset of the .sgsnap, sampled single-byte flips, and content faults built before compression (record cut in half / by one byte, relationship naming an unknown node, record of an unknown type, bad header version). Err => id-preserving dump, label-index membership and counters before == after; Ok => store == before + snapshot with dedup merges per a reference JSON-lines importer. Non-trivial = import failed after at least one record had been applied, or succeeded with >= 1 merge; distinct = distinct (case, fault) pairs.",
+        "target store (0-4 surviving nodes with name/code keys; in ~65% of the cases 1-4 further nodes and up to 4 relationships were created in between and deleted again, so imported nodes get recycled ids below and between the pre-existing ones) x exported snapshot (1-5 nodes, 0-6 relationships, values that round-trip exactly; some nodes are twins of target nodes on label+name+code) x dedup keys {none, name, code, both orders, a key nobody has} x fault: none, every truncation offset of the .sgsnap, sampled single-byte flips, and content faults built before compression (record cut in half / by one byte, relationship naming an unknown node, record of an unknown type, bad header version). Err => id-preserving dump, label-index membership and counters before == after; Ok => store == before + snapshot with dedup merges per a reference JSON-lines importer. Non-trivial = import failed after at least one record had been applied, or succeeded with >= 1 merge; distinct = distinct (case, fault) pairs.",
     );
     ev.assume("dedup domain kept unambiguous: twins share every label of the target node and both keys; key values are lower-case, unpadded and unique within the target and within the snapshot; non-key properties of twins never conflict");
     ev.assume("a record of an unknown type (valid JSON without a known \"t\") is skipped by design (format.rs: additive line types); a record cut so that it is no longer JSON, a relationship naming an unknown node, and an unsupported header version must fail the import");
@@ -2043,6 +2117,26 @@ fn c13(args: &Args) {
             None => enumerate_faults(&prep.bytes, &prep.lines, ev.tier),
         };
         ev.class(class);
+        {
+            // shape of the target store's id space (one build, outside the per-fault loop)
+            let t = build_store(&case.target).store;
+            let live: BTreeSet<u64> = vcheck::dump::live_node_ids(&t).iter().map(|i| i.as_u64()).collect();
+            let deleted = case.target.edits.iter().any(|e| matches!(e, Edit::DeleteNode { .. }));
+            if deleted {
+                ev.class("target_has_id_holes");
+                let max = live.iter().max().copied().unwrap_or(0);
+                if (1..max).any(|i| !live.contains(&i)) {
+                    ev.class("target_hole_below_a_survivor");
+                    if !t.all_edges().is_empty() {
+                        ev.class("target_hole_below_a_survivor_with_relationships");
+                    }
+                    ev.class(if case.dedup.is_empty() { "target_holes_import_without_dedup" } else { "target_holes_import_with_dedup" });
+                }
+            }
+            if case.snap.edits.iter().any(|e| matches!(e, Edit::DeleteNode { .. })) {
+                ev.class("snapshot_source_has_id_holes");
+            }
+        }
         let ch = case_hash(case);
         for f in faults {
             ev.case();
@@ -2599,6 +2693,9 @@ fn c14_check(case: &C14Case, kf_marker: bool, kf_last_only: bool, stats: &mut C1
             Err(m) => return Err(format!("clean restart after {k} acknowledged import(s): {m}")),
         }
     }
+    if case.imports.iter().any(|s| s.graph.edits.iter().any(|e| matches!(e, Edit::DeleteNode { .. }))) {
+        bump(stats, "upload_source_has_id_holes");
+    }
     let cumulative = (1..=n).all(|k| full.acked_states[k] == prep.alone[k]);
     bump(stats, if n == 1 { "history_single" } else if cumulative { "history_cumulative" } else { "history_disjoint_or_overlapping" });
     // 2. crash at every hook point of every import
@@ -2689,14 +2786,21 @@ fn c14_strategy() -> BoxedStrategy<C14Case> {
         }
         out
     });
-    prop_oneof![2 => single, 4 => two, 3 => three, 3 => cumulative]
-        .prop_map(|steps| C14Case {
+    // a third of the uploads come from a source store with create-and-delete history (sparse,
+    // recycled node and relationship ids in the exported records)
+    let ballast = proptest::collection::vec(proptest::option::weighted(0.33, ballast_strategy()), 3);
+    (prop_oneof![2 => single, 4 => two, 3 => three, 3 => cumulative], ballast)
+        .prop_map(|(steps, ballast)| C14Case {
             imports: steps
                 .into_iter()
-                .map(|(mut graph, dedup)| {
+                .enumerate()
+                .map(|(i, (mut graph, dedup))| {
                     graph.id_key = "sid".to_string();
                     for n in graph.nodes.iter_mut() {
                         n.props.retain(|(k, _)| k != "uid" && k != "sid");
+                    }
+                    if let Some(Some(b)) = ballast.get(i) {
+                        add_ballast(&mut graph, b, 5000 + 100 * i as i64);
                     }
                     ImportStep { graph, dedup }
                 })
